@@ -463,6 +463,20 @@ class _ExprInliner(ast.NodeTransformer):
         return ast.copy_location(e, node)
 
 
+def _eval_nodes(n):
+    """sub-expressions in the order their evaluation completes (approximation used to find the
+    first call evaluated in a statement)"""
+    if isinstance(n, (ast.Lambda, ast.ListComp, ast.SetComp, ast.DictComp, ast.GeneratorExp, ast.IfExp, ast.BoolOp)):
+        yield n
+        return
+    for c in ast.iter_child_nodes(n):
+        if isinstance(c, (ast.expr_context, ast.operator, ast.unaryop, ast.cmpop, ast.boolop)):
+            continue
+        yield from _eval_nodes(c)
+    if isinstance(n, ast.expr):
+        yield n
+
+
 def _inline_in_function(func, cls, qual, helpers_by_name):
     """one pass over the statements of ``func``; returns number of sites inlined"""
     count = 0
@@ -556,12 +570,58 @@ def _inline_in_function(func, cls, qual, helpers_by_name):
             ast.fix_missing_locations(s)
         return out
 
+    def hoist(st):
+        """a helper call that is the first thing evaluated in st (a loop's iterable, an if test, the
+        value of a return / assignment ...) but not the whole statement: name it in a temporary
+        placed before st, so that the statement forms above apply"""
+        if isinstance(st, ast.For):
+            root, field = st.iter, 'iter'
+        elif isinstance(st, ast.If):
+            root, field = st.test, 'test'
+        elif isinstance(st, (ast.Return, ast.Expr)) and st.value is not None:
+            root, field = st.value, 'value'
+        elif isinstance(st, ast.Assign):
+            root, field = st.value, 'value'
+        else:
+            return None
+        target = None
+        order = list(_eval_nodes(root))
+        for idx, n in enumerate(order):
+            if isinstance(n, ast.Call) and _match_call(n, helpers_by_name, func, cls, qual) is not None \
+                    and not _match_call(n, helpers_by_name, func, cls, qual).single_expr:
+                inside = {id(x) for x in ast.walk(n)}
+                if all(id(x) in inside or isinstance(x, (ast.Name, ast.Constant, ast.Attribute, ast.Tuple, ast.List))
+                       for x in order[:idx]):
+                    target = n
+                break
+        if target is None or target is root and isinstance(st, (ast.Return, ast.Expr, ast.Assign)):
+            return None
+        # its own arguments must be plain (they are evaluated before anything else anyway)
+        uid[0] += 1
+        tmp = '%s__r%d' % (_match_call(target, helpers_by_name, func, cls, qual).name.strip('_'), uid[0])
+        names.add(tmp)
+        pre = ast.Assign(targets=[ast.Name(id=tmp, ctx=ast.Store())], value=target, lineno=st.lineno)
+        ast.copy_location(pre, st)
+
+        class Put(ast.NodeTransformer):
+            def visit_Call(self, node):
+                if node is target:
+                    return ast.copy_location(ast.Name(id=tmp, ctx=ast.Load()), node)
+                return self.generic_visit(node)
+        setattr(st, field, Put().visit(root))
+        ast.fix_missing_locations(pre)
+        return pre
+
     def rewrite(body):
         out = []
         for st in body:
             if isinstance(st, (ast.FunctionDef, ast.AsyncFunctionDef, ast.ClassDef)):
                 out.append(st)
                 continue
+            pre = hoist(st)
+            if pre is not None:
+                rep0 = expand(pre)
+                out.extend(rep0 if rep0 is not None else [pre])
             rep = expand(st)
             if rep is not None:
                 out.extend(rep)
